@@ -139,8 +139,8 @@ Definition est_ideal (p : enc_params) (h4 : Z) : Z :=
   let d := ep_dict p in
   let eb := get_extra_size_before d in
   70 + (80 + match ep_mode p with
-             | Fast => buf_ideal d (Z.max eb 1) 272 / 1024 + 10 + mf_kib (ep_mf p) d h4
-             | Normal => buf_ideal d (Z.max eb 4096) 4096 / 1024 + 10 + mf_kib (ep_mf p) d h4 + 256
+             | Fast => buf_ideal d (eb + 1) 272 / 1024 + 10 + mf_kib (ep_mf p) d h4
+             | Normal => buf_ideal d (eb + 4096) 4096 / 1024 + 10 + mf_kib (ep_mf p) d h4 + 256
              end)
   + literal_bytes (Z.min (ep_lc p) 8 + Z.min (ep_lp p) 4) / 1024.
 
@@ -234,7 +234,7 @@ Proof.
   unfold HASH2_SIZE, HASH3_SIZE. change (ceil64 (4 * 1024)) with 4096. change (ceil64 (4 * 65536)) with 262144.
   pose proof (ceil64_bound (4 * h4) ltac:(lia)) as C4.
   set (c4 := ceil64 (4 * h4)) in *. clearbody c4.
-  unfold enc_buf_bytes, enc_extra_before, enc_extra_after, opts_bytes, matches_bytes,
+  unfold enc_buf_bytes, enc_extra_before, caller_extra_before, enc_extra_after, opts_bytes, matches_bytes,
     length_encoder_bytes, len_symbols, buf_ideal, mf_kib, mf_bytes,
     COMPRESSED_SIZE_MAX, MATCH_LEN_MAX, OPTS, SIZEOF_OPTIMUM, VEC_HEADER. rewrite esb_max.
   assert (Hp : 2 ^ pb = 1 \/ 2 ^ pb = 2 \/ 2 ^ pb = 4 \/ 2 ^ pb = 8 \/ 2 ^ pb = 16).
@@ -307,8 +307,9 @@ Proof.
     unfold hash4_size_pure.
     destruct (hash4_ok false d ltac:(unfold U32; lia)) as (h & -> & Hh).
     pose proof (ceil64_bound (4 * h) ltac:(lia)). lia. }
-  assert (264192 <= enc_buf_bytes mode d).
-  { unfold enc_buf_bytes, enc_extra_before, enc_extra_after, MATCH_LEN_MAX, OPTS. destruct mode; lia. }
+  assert (264192 <= enc_buf_bytes k mode d).
+  { unfold enc_buf_bytes, enc_extra_before, caller_extra_before, enc_extra_after, MATCH_LEN_MAX, OPTS.
+    rewrite esb_max. destruct mode; destruct k; lia. }
   unfold COMPRESSED_SIZE_MAX. destruct k; lia.
 Qed.
 
